@@ -1,8 +1,8 @@
 SPECIFICATION Spec
 CONSTANTS
-  Topics = {"a", "b"}
+  Topics = {"a"}
   MaxInst = 3
-  MaxCalls = 3
+  MaxCalls = 4
   FlushOnDrop = TRUE
   FlushByLastRef = FALSE
   GenGuard = FALSE
@@ -10,5 +10,5 @@ CONSTANTS
   Prompt = FALSE
   KeepHist = FALSE
 VIEW View
-INVARIANTS TypeOK C17Cex FileAfterDrop GenNotAhead ClosedMeansGone
+INVARIANTS TypeOK C17Cex FileAfterDrop GenNotAhead ClosedMeansGone SingleWriter
 CHECK_DEADLOCK FALSE
